@@ -2146,6 +2146,17 @@ class Emitter:
                 fn = self.local_method(rty[1], name)
                 if fn is not None and fn.self_kind:
                     return self.inline_call(fn, rty[1], [e.recv] + list(e.args), env1, k, recv_val=(rt, rty))
+            # `opt.map(|x| body)` / `opt.and_then(|x| body)` with a one-parameter closure, when the vocabulary has no entry of
+            # its own: the same thing as `match opt { Some(x) => Some(body), None => None }` (`and_then`: `=> body`) -- the
+            # body may assign, panic or return like any match arm
+            if rty[0] == "opt" and name in ("map", "and_then") and len(e.args) == 1 and e.args[0].kind == "closure" \
+                    and len(e.args[0].params) == 1:
+                cl = e.args[0]
+                pat = cl.params[0][0]
+                body = cl.body if name == "and_then" else N("call", f=N("path", segs=["Some"]), args=[cl.body])
+                m = N("match", scrut=recv, arms=[(N("ptstruct", segs=["Some"], elems=[pat]), None, body),
+                                                (N("ppath", segs=["None"]), None, N("path", segs=["None"]))], arm_attrs=[[], []])
+                return self.expr(m, env1, k)
             raise EmitError("method %s on %r" % (name, rty))
         return self.expr(e.recv, env, k_recv)
 
